@@ -346,8 +346,15 @@ func runC08(cs CaseSpec) *CaseResult {
 					k = &SimKey{detKey(cs.Seed, "c08validjoin", i)}
 				}
 				itx := hg.NewInternalTransactionJoin(*peers.NewPeer(pubHex(k.K), "x:1", moniker))
+				name = "JoinRequest(validly signed)"
+				if rng.Intn(2) == 0 {
+					// a request type that does not exist (or a removal sent as a join
+					// request), under a perfectly valid signature
+					itx.Body.Type = hg.TransactionType([]int{1, 2, 7, 200}[rng.Intn(4)])
+					name = fmt.Sprintf("JoinRequest(validly signed, request type %d)", itx.Body.Type)
+				}
 				itx.Sign(k.K)
-				name, cmd = "JoinRequest(validly signed)", &bnet.JoinRequest{InternalTransaction: itx}
+				cmd = &bnet.JoinRequest{InternalTransaction: itx}
 			default:
 				name, cmd = g.request()
 			}
